@@ -224,6 +224,15 @@ theorem deliver_payout {w w' : World} {to : Addr} {amt : Nat}
   · simp [deliver, payOut] at h
     exact ⟨h.2.1, h.2.2.symm⟩
 
+/-- A payout the holdings cover is delivered. -/
+theorem deliver_payout_ok (w : World) (to : Addr) (amt : Nat) (h0 : amt ≠ 0) (hle : amt ≤ w.held) :
+    ∃ w', deliver w [payout w.st.cfg.denom to amt] = .ok w' := by
+  cases hd : w.st.cfg.denom with
+  | native d =>
+    simp [payout, deliver, check, hd, h0, payOut, subU128, hle, bind, Except.bind, pure, Except.pure]
+  | cw20 t =>
+    simp [payout, deliver, check, hd, payOut, subU128, hle, bind, Except.bind, pure, Except.pure]
+
 /-! ## Specification of the handlers -/
 
 theorem paidAmount_native_ok {denom : Denom} {coins : List (String × Nat)} {amt : Nat}
